@@ -1180,6 +1180,13 @@ class Sym:
     def _ev_Call(self, node: ast.Call, env, fr):
         args = [self.ev(a, env, fr) for a in node.args]
         kwargs = {k.arg: self.ev(k.value, env, fr) for k in node.keywords if k.arg}
+        for k in node.keywords:
+            if k.arg is None:
+                # f(**mapping): a mapping with literal keys (e.g. the **kwargs of an inlined caller) binds by name
+                v = self.ev(k.value, env, fr)
+                if v[0] == 'dict' and all(kk[0] == 'lit' and isinstance(kk[1], str) for kk, _ in v[1]):
+                    for kk, vv in v[1]:
+                        kwargs.setdefault(kk[1], vv)
         f = node.func
         # closures / local callables
         if isinstance(f, ast.Name):
@@ -1797,6 +1804,15 @@ def _norm1(t):
         return t
     if k == 'mapdict':
         vars_, kb, vb, seq, guard = t[1], t[2], t[3], t[4], t[5]
+        # a dict comprehension over a mapped sequence: compose ({n: f(n) for n in [g(p) for p in ps]})
+        if len(vars_) == 1 and seq[0] == 'map':
+            inner_vars, inner_body, inner_seq, inner_guard = seq[1], seq[2], seq[3], seq[4]
+            sub = {vars_[0]: inner_body}
+            nk, nv = _subst_vars(kb, sub), _subst_vars(vb, sub)
+            ng = _subst_vars(guard, sub) if guard is not None else None
+            gs = [g_ for g_ in (inner_guard, ng) if g_ is not None]
+            g2 = None if not gs else (gs[0] if len(gs) == 1 else _norm1(('and', tuple(gs))))
+            return _norm1(('mapdict', inner_vars, nk, nv, inner_seq, g2))
         if seq[0] == 'call' and seq[1] in ('enumerate', 'builtins.enumerate') and len(seq[2]) == 1 and len(vars_) >= 2:
             idx = vars_[0]
             if not _mentions(kb, idx) and not _mentions(vb, idx) and (guard is None or not _mentions(guard, idx)):
